@@ -126,6 +126,11 @@ impl Host {
         panic!("Host: '{}' ports exhausted", self.nodename)
     }
 
+    #[cfg(feature = "verif-hooks")]
+    pub(crate) fn verif_next_ephemeral_port(&self) -> u16 {
+        self.next_ephemeral_port
+    }
+
     /// Receive the `envelope` from the network.
     ///
     /// Returns an Err if a message needs to be sent in response to a failed
@@ -243,6 +248,11 @@ impl Udp {
     #[cfg(feature = "verif-hooks")]
     pub(crate) fn verif_bind_count(&self) -> usize {
         self.binds.len()
+    }
+
+    #[cfg(feature = "verif-hooks")]
+    pub(crate) fn verif_bind_ports(&self) -> Vec<u16> {
+        self.binds.keys().copied().collect()
     }
 
     pub(crate) fn is_broadcast_enabled(&self, port: u16) -> bool {
@@ -509,6 +519,16 @@ impl Tcp {
     #[cfg(feature = "verif-hooks")]
     pub(crate) fn verif_bind_count(&self) -> usize {
         self.binds.len()
+    }
+
+    #[cfg(feature = "verif-hooks")]
+    pub(crate) fn verif_bind_ports(&self) -> Vec<u16> {
+        self.binds.keys().copied().collect()
+    }
+
+    #[cfg(feature = "verif-hooks")]
+    pub(crate) fn verif_stream_pairs(&self) -> Vec<(SocketAddr, SocketAddr)> {
+        self.sockets.keys().map(|p| (p.local, p.remote)).collect()
     }
 
     pub(crate) fn accept(&mut self, addr: SocketAddr) -> Option<(Syn, SocketAddr)> {
